@@ -13,6 +13,7 @@ import hashlib
 import json
 import os
 import pickle
+import sys
 import weakref
 
 from harness.common import sexp
@@ -524,6 +525,23 @@ def pycall(f, *a):
         return ("err", type(e).__name__)
 
 
+def pycall_long(f, *a):
+    """as pycall, with a 60 s limit and a recursion limit of 40000 (confirmation of a non-termination)"""
+    lim = sys.getrecursionlimit()
+    try:
+        sys.setrecursionlimit(max(lim, 40000))
+        with time_limit(60):
+            return ("ok", f(*a))
+    except Timeout:
+        return ("err", "timeout")
+    except RecursionError:
+        return ("err", "RecursionError")
+    except Exception as e:  # noqa
+        return ("err", type(e).__name__)
+    finally:
+        sys.setrecursionlimit(lim)
+
+
 def model_term(ans):
     """driver answer (ok Term)|(err K) -> ('ok', sexp string) | ('err',)"""
     if ans == "bad-op":
@@ -797,6 +815,17 @@ def ops_case(ctx, B, rng, dg):
     ctx.case(("beta_norm", wstr(cb0)), nontrivial=has_redex(bt))
     r = pycall(lambda: bt.beta_norm())
     check_op(ctx, B, "a", "beta_norm", ["betanorm", 3000, wire(bt)], r, None, rp)
+    if r[0] == "err":
+        # betaNorm_terminates / betaNorm_sem: on a well-typed term beta_norm RETURNS.  A depth/time
+        # failure is confirmed with a large recursion limit and a long time limit before it counts.
+        if type_of(cb0)[0] != "ok":
+            mismatch(ctx, "a:generator", "generated beta_norm input is not well-typed: %s" % wstr(cb0)[:400])
+        else:
+            r = pycall_long(lambda: bt.beta_norm()) if r[1] in ("RecursionError", "timeout") else r
+            if r[0] == "err":
+                report(ctx, "beta_norm-termination", "beta_norm does not return on a well-typed term (%s): %s" % (r[1], wstr(cb0)[:400]), rp)
+            else:
+                ctx.count("beta_norm:returned-only-with-raised-limits")
     if r[0] == "ok":
         if has_redex(r[1]):
             report(ctx, "beta_norm-normal", "beta_norm result still contains a redex: %s" % wstr(r[1])[:400], rp)
@@ -1882,7 +1911,8 @@ def run(ctx):
         "CPython reference counting: an object is freed when the last reference is dropped (weakref callbacks report it to the heap model)"]
     ctx.assumptions += [
         "finite standard models only; semantic comparisons whose types exceed the size cap are skipped (counted)",
-        "termination of beta_norm is strong normalisation of the simply typed lambda calculus: not proved (fuel model)",
+        "beta_norm: the Python recursion is modelled with a depth bound (fuel); the theorems say that some depth suffices for every well-typed term "
+        "and that the depth is not observable — that CPython's recursion limit is large enough for a given term is not part of the model",
         "subst_type_inplace rewrites shared objects: terms sharing objects with its target are outside the theorems (known finding)"]
     from logic import basic
     basic.load_theory('logic_base')
@@ -1911,8 +1941,12 @@ MANIFEST = {
             "frees, hash, subst_type_inplace, allocating operations) == on two heap objects is alpha-equivalence of their unfoldings and their "
             "hashes agree (heap_eq_iff_alpha); fast_compare is transitive in all four </= combinations, antisymmetric and constant on == classes "
             "(cmp_trans, cmp_antisymm), hence a strictly sorted list is determined up to == by its elements (sorted_canonical); beta_conv keeps "
-            "type and denotation (betaConv_sem); beta_norm never raises, and whenever it returns the result is normal, typed, equal in denotation "
-            "and the same for every larger recursion depth (betaNorm_sem); "
+            "type and denotation (betaConv_sem); beta_norm TERMINATES on every term on which checked_get_type succeeds, under any binder context "
+            "(betaNorm_terminates: normalisation of the code's own strategy — normalise fun and arg, contract at the root, normalise the contractum — "
+            "proved as termination of hereditary substitution, induction on the size of the bound variable's type then on the normal body); it "
+            "never raises TermException on any term (betaNorm_no_exception), its answer does not depend on the recursion depth "
+            "(betaNorm_depth_irrelevant), and for a well-typed term the unique answer is beta-normal, typed at the same type and equal in "
+            "denotation (betaNorm_sem, full statement: exists depth, same answer at every depth that suffices); "
             "subst_type, subst, subst_bound, abstract_over/Lambda (closed bodies), beta_conv, beta_norm preserve well-typedness, the type and the "
             "denotation in every finite standard model (for every valuation and environment: no capture). The model is tied to kernel/term.py, "
             "type.py, term_ord.py by differential execution on generated DAG terms, object histories with the real addresses, and parsed terms; "
@@ -1920,10 +1954,11 @@ MANIFEST = {
             "re-implementations up to alpha, type preservation, `sem` in finite models, order axioms).",
     "note": "Trusted: Lean kernel; propext/Classical.choice/Quot.sound; Python's tuple/str hashing and str order; the correspondence is only as "
             "good as the generated cases. How __hash__ builds its value and which bound names results carry are NOT checked (reported as "
-            "info:* counters): a refactoring that keeps 'equal terms have equal hashes' passes. beta_norm: if it returns (fuel); termination not "
-            "proved. The caches of subst / incr_boundvars / abstract_over short cuts are covered by _id injectivity (theorem) plus differential "
+            "info:* counters): a refactoring that keeps 'equal terms have equal hashes' passes. beta_norm: the recursion of the Python is a depth bound in the model; termination is proved as 'some depth "
+            "suffices', so a RecursionError of CPython on a very deep term is outside the theorems (the oracle re-runs such a case with a raised "
+            "limit before reporting non-termination). The caches of subst / incr_boundvars / abstract_over short cuts are covered by _id injectivity (theorem) plus differential "
             "testing on shared DAGs; the caches of subst_bound and of subst's rec are modelled on the heap (subst's preceding subst_type and the "
-            "abs_name_inst renaming are not). Termination of beta_norm on well-typed terms (strong normalisation) is NOT proved. __copy__, deepcopy, pickle: "
+            "abs_name_inst renaming are not). __copy__, deepcopy, pickle: "
             "correspondence only. Infinite models outside the property.",
     "design_ref": "DESIGN.md 4/C03",
 }
